@@ -87,6 +87,31 @@ PROPS["C19"] = dict(
                  "context cancellation inside the memoizer's select statements is not exercised (Go's select picks among ready cases with an unowned random source)"],
 )
 
+ENGINE_REAL = ["bql/lexer, bql/grammar (parser, LLk), bql/semantic (hooks, statement) - real code",
+               "bql/planner, bql/table - real code, instrumented scratch copy (yield before every statement, sim mutexes, goroutine announcements)",
+               "tools/vcli/bw/server.BQL entry point - real code", "storage/memory - real code (instrumented)", "storage/memoization - real code (instrumented), in part of the runs"]
+
+PROPS["C20"] = dict(
+    simulated=True,
+    level="fault_enumeration",
+    instrument=ENGINE_FILES,
+    budget=dict(quick=45, thorough=900),
+    grace_s=120,
+    rule="seeded corpus of statements (SELECT with 1-3 clauses of every driver lookup shape incl. OPTIONAL, GROUP BY / ORDER BY / LIMIT / global bounds; INSERT; DELETE; "
+         "CREATE; DROP; CONSTRUCT / DECONSTRUCT with and without ';' reification; SHOW) over 1-3 graphs; per statement one fault-free run under tape T records the driver "
+         "call trace c1..cn, then ONE RUN PER (call position, mode) under the same tape with that single fault: non-streaming calls fail; streaming calls fail before the "
+         "first element and after j delivered elements (j in {1, 2, n/2, n-1, n}); plus sampled double faults. The prefix of the call trace up to the fault must equal the "
+         "fault-free one (checked). Oracle per run: Execute returns a non-nil error, never (nil, nil); it returns (no deadlock, no step cap); no goroutine of the call is left "
+         "(bubble stack dump); no panic. evaluations = simulated executions (fault-free + faulty); a case is non-trivial when at least one injected fault actually fired; "
+         "distinct = distinct (statement, data, knobs)",
+    exhaustive_note="exhaustive only over (call position x mode) of each sampled statement, with j capped to five values per call",
+    components_real=ENGINE_REAL,
+    components_stub=["simulated storage driver (x/harness/simstore.go): gate + pacing + emission permutation + fault plan over the real memory store", "seeded scheduler in a synctest bubble"],
+    assumptions=["the simulated driver honours the storage.Graph contract (closes the channel before returning, also on error)",
+                 "nothing is demanded about partial writes after a failed write",
+                 "context cancellation by the caller is not injected"],
+)
+
 # ---------------------------------------------------------------------------
 # Texts for MANIFEST.json (level claimed, trusted base, technique)
 MANIFEST_TEXT = {}
@@ -113,3 +138,7 @@ MANIFEST_TEXT["C19"] = dict(
     text="seeded exploration of read/write histories through one or several handles (lockstep comparison with the wrapped store) and of one-writer/one-or-two-reader interleavings at statement granularity inside the memoizer",
     note="trusted base: x/sim scheduler, instrumenter, the lookup reference definition; single writer only (as the property states)",
     technique="deterministic simulation: seeded scheduler over the instrumented memoization+memory copies, lockstep refinement against the wrapped store, real-time-bounded state matching, shrinking, replay from tape")
+MANIFEST_TEXT["C20"] = dict(
+    text="fault enumeration: for every statement of a seeded corpus, every driver call it makes (by position in the recorded call trace) is failed in every applicable mode under the same tape, and the statement must return an error in bounded steps leaving no goroutine",
+    note="trusted base: x/sim scheduler, simulated driver, instrumenter; corpus is sampled, (position x mode) is enumerated per statement",
+    technique="deterministic simulation with fault injection: seeded scheduler over the instrumented engine, simulated storage driver with a per-call fault plan, same-tape re-execution per fault position, bubble-end goroutine leak detection")
